@@ -14,9 +14,11 @@ CHECKS = {
    text="Coq theorems over the executable model: readVarint inverts sqlite3PutVarint for all 2^64 values (all nine lengths), parseRecord inverts the record "
         "format for every column list / every admissible serial type / any header size, the local-payload size equals the X/M/K rule for every payload "
         "length and legal page size (table and index), parsePayload decodes inline and spilled cells, addOverflow returns the payload for overflow chains "
-        "of any length. The model is run against the real decoders (function level, exhaustive on small spaces) and against SQLite-written files at every "
+        "of any length; the four cell formats (table leaf / interior, index leaf / interior) decode from their encodings, the cell pointer array decodes to the offsets it encodes, and a table "
+        "leaf page laid out as the format says decodes to exactly its cells in pointer-array order (C14_table_leaf_cell ... C14_table_leaf_page). The model is run against the real decoders (function level, exhaustive on small spaces) and against SQLite-written files at every "
         "spill threshold on every run.",
-   note="Page layout (cell pointer array -> cells) is covered by correspondence only in this property; the page-level round trip is part of C01.",
+   note="The page-level theorem is stated for table leaf pages; the other three page kinds differ only in the header offset of the pointer array and the cell parser (their cells and the "
+        "pointer array have their own theorems) and are covered by the correspondence run on every page of the corpus.",
    technique="Coq proof (round-trip theorems by induction) + differential execution of the extracted model vs the Go code vs independent oracle",
    design="DESIGN.md section 6, C14"),
  "C01": dict(
